@@ -598,6 +598,15 @@ func judgeValidation(r *Run, j *Judged, c *cls, by map[int]*OResp) {
 			}
 		}
 	}
+	// ... and a stored response that has no validator cannot be validated at all: a 304 in such an exchange
+	// answers a validator the client supplied, for a representation it got elsewhere
+	if c.fg304 != nil && c.B != nil && r.chainExact2(c.B, e) {
+		sh, lastLink := r.effectiveStored(c.B, e.SeqInv)
+		if sh.Get("Etag") == "" && sh.Get("Last-Modified") == "" && r.readAgrees(e, c.B, lastLink) && !r.tainted(e) {
+			j.count("C02", "validation-request-wrong")
+			j.fail("C02", "validation-request-wrong", e, "no-stored-validator", "stored response sid=%d has neither ETag nor Last-Modified, yet it was returned as validated by a 304: the origin was asked If-None-Match=%q If-Modified-Since=%q, which the client supplied", c.B.SID, c.fg304.Req.Header.Get("If-None-Match"), c.fg304.Req.Header.Get("If-Modified-Since"))
+		}
+	}
 	scc := parseCC(c.hdr)
 	var why []string
 	strict := false
@@ -686,6 +695,17 @@ func judgeValidation(r *Run, j *Judged, c *cls, by map[int]*OResp) {
 
 // ---------------- C04 ----------------
 
+// variantSig: the two values of the selecting-value table whose variant keys collide under the library's 64-bit
+// hash get a signature of their own (a known, unrepaired finding: known_findings.json), every other mix-up the
+// plain one.
+func variantSig(a, b string) string {
+	const v1, v2 = "9d863088ea8a569f", "9170dae036e4c82e"
+	if (a == v1 && b == v2) || (a == v2 && b == v1) {
+		return "hash-collision"
+	}
+	return ""
+}
+
 // meaningOf maps a selecting header value to its meaning; spellings of one
 // meaning are generated from tables, so this is a lookup, not an analysis.
 func meaningOf(field string, vals []string) string {
@@ -759,7 +779,7 @@ func judgeVary(r *Run, j *Judged, c *cls) {
 	for _, f := range fields {
 		a, b := meaningOf(f, e.Req.Header.Values(f)), meaningOf(f, ref.Req.Header.Values(f))
 		if a != b {
-			j.fail("C04", "wrong-variant", e, "", "stored response sid=%d (header provenance sid=%d) was obtained with %s=%q but is returned for a request with %s=%q (Vary: %s)", c.B.SID, ref.SID, f, ref.Req.Header.Values(f), f, e.Req.Header.Values(f), vh.Get("Vary"))
+			j.fail("C04", "wrong-variant", e, variantSig(ref.Req.Header.Get(f), e.Req.Header.Get(f)), "stored response sid=%d (header provenance sid=%d) was obtained with %s=%q but is returned for a request with %s=%q (Vary: %s)", c.B.SID, ref.SID, f, ref.Req.Header.Values(f), f, e.Req.Header.Values(f), vh.Get("Vary"))
 			return
 		}
 	}
@@ -770,7 +790,7 @@ func judgeVary(r *Run, j *Judged, c *cls) {
 	for _, f := range own {
 		a, b := meaningOf(f, e.Req.Header.Values(f)), meaningOf(f, c.B.Req.Header.Values(f))
 		if a != b {
-			j.fail("C04", "wrong-variant", e, "", "stored response sid=%d was obtained with %s=%q but is returned for a request with %s=%q (its own Vary: %s)", c.B.SID, f, c.B.Req.Header.Values(f), f, e.Req.Header.Values(f), c.B.Header.Get("Vary"))
+			j.fail("C04", "wrong-variant", e, variantSig(c.B.Req.Header.Get(f), e.Req.Header.Get(f)), "stored response sid=%d was obtained with %s=%q but is returned for a request with %s=%q (its own Vary: %s)", c.B.SID, f, c.B.Req.Header.Values(f), f, e.Req.Header.Values(f), c.B.Header.Get("Vary"))
 			return
 		}
 	}
